@@ -162,13 +162,21 @@ STD_ENUM_DISC = {'Ordering': {'Less': -1, 'Equal': 0, 'Greater': 1}}
 
 
 class Frame:
-    __slots__ = ('func', 'fid', 'bb', 'dest', 'ret_bb', 'on_return')
+    __slots__ = ('func', 'fid', 'bb', 'dest', 'ret_bb', 'on_return', 'subst')
 
-    def __init__(s, func, fid, bb, dest=None, ret_bb=None, on_return=None):
-        s.func, s.fid, s.bb, s.dest, s.ret_bb, s.on_return = func, fid, bb, dest, ret_bb, on_return
+    def __init__(s, func, fid, bb, dest=None, ret_bb=None, on_return=None, subst=None):
+        s.func, s.fid, s.bb, s.dest, s.ret_bb, s.on_return, s.subst = func, fid, bb, dest, ret_bb, on_return, subst
 
     def copy(s):
-        return Frame(s.func, s.fid, s.bb, s.dest, s.ret_bb, s.on_return)
+        return Frame(s.func, s.fid, s.bb, s.dest, s.ret_bb, s.on_return, s.subst)
+
+
+def apply_subst(text, subst):
+    if not subst:
+        return text
+    for g, t in subst.items():
+        text = re.sub(r'(?<![\w:])' + re.escape(g) + r'(?![\w])', t, text)
+    return text
 
 
 class State:
@@ -208,8 +216,8 @@ class Call:
 class Enter:
     """model result: run `func` with `args`, then map the returned value through `then` (value -> value | [alts])"""
 
-    def __init__(s, func, args, then=None):
-        s.func, s.args, s.then = func, args, then
+    def __init__(s, func, args, then=None, subst=None):
+        s.func, s.args, s.then, s.subst = func, args, then, subst
 
 
 class Diverge:
@@ -233,6 +241,7 @@ class Exec:
         self.prune = prune
         self.stats = {'steps': 0, 'forks': 0, 'pruned': 0, 'inlined': set(), 'modelled': set(), 'stubbed': set()}
         self._prune_solver = None
+        self.from_wrappers = set()    # target types whose derive-generated From impls are modelled as wrappers
         self.no_inline = []           # regexes of callees that must be stubbed / modelled, never inlined
         from . import models
         models.install(self)
@@ -372,7 +381,7 @@ class Exec:
                 fr = self._frame(st, fid)
                 if fr is None or p[1] not in fr.func.locals:
                     raise NotEncoded(f'read of unknown local {p[1]} in frame {fid}')
-                env[p[1]] = self.fresh(fr.func.locals[p[1]], f'{self._dbg(fr.func, p[1])}', st)
+                env[p[1]] = self.fresh(apply_subst(fr.func.locals[p[1]], fr.subst), f'{self._dbg(fr.func, p[1])}', st)
             return env[p[1]]
         if k == 'deref':
             r = self.read(st, fid, p[1])
@@ -799,7 +808,7 @@ class Exec:
         out, depth = [], 0
         i = 0
         while i < len(s):
-            if s.startswith('::<', i):
+            if s.startswith('::<', i) and not s.startswith('::<impl ', i):
                 j = i + 2
                 d = 0
                 while j < len(s):
@@ -968,7 +977,7 @@ class Exec:
             raise NotEncoded(f'{func.name}: arity {len(args)} vs {len(func.args)}')
         for (name, ty), v in zip(func.args, args):
             st.frames[fid][name] = v
-        st.stack.append(Frame(func, fid, 'bb0', dest, ret_bb, e.then))
+        st.stack.append(Frame(func, fid, 'bb0', dest, ret_bb, e.then, e.subst))
         self.stats['inlined'].add(func.name)
         work.append(st)
 
@@ -1044,6 +1053,7 @@ class Exec:
     def do_call(self, st, fid, s, work, outs):
         _, dest, callee, ops, nxt = s
         fr = st.stack[-1]
+        callee = apply_subst(callee, fr.subst)
         args = [self.operand(st, fid, o) for o in ops]
         if re.match(r'^(move|copy) ', callee):
             # call through a function pointer / closure value held in a local
@@ -1151,13 +1161,14 @@ class Exec:
                 if r is not None:
                     self.stats['modelled'].add(rx.pattern)
                     return r
-        func = self.resolve(callee, args)
-        if func is not None:
+        rs = self.resolve(callee, args)
+        if rs is not None:
+            func, subst = rs
             if any(re.search(p, callee) for p in self.no_inline):
                 raise NotEncoded(f'call to {callee} must be stubbed')
             if sum(1 for fr in st.stack if fr.func is func) >= 3:
                 raise NotEncoded(f'recursion into {func.name}')
-            return Enter(func, args)
+            return Enter(func, args, None, subst)
         raise NotEncoded(f'call to {callee} (no stub, model or body)')
 
     def _log(self, st, callee, args, r, tag):
@@ -1195,7 +1206,7 @@ class Exec:
         # 1. exact (trimmed) name
         cands = [f for f in prog.funcs_named(callee)] or [f for f in prog.funcs_named(plain)]
         if len(cands) == 1:
-            return cands[0] if cands[0].blocks else None
+            return (cands[0], None) if cands[0].blocks else None
         if len(cands) > 1:
             raise NotEncoded(f'ambiguous callee {callee}: {len(cands)} bodies')
         # 2. Type::method  ->  <impl at file:line>::method whose impl header names Type
@@ -1205,6 +1216,9 @@ class Exec:
         meth = m.group(4)
         if m.group(3) is not None:
             self_ty, trait = m.group(3), None
+            mi = re.match(r'^(?:[\w:]*::)?<impl (.+)>$', self_ty)
+            if mi:
+                self_ty = mi.group(1)
         else:
             self_ty, trait = m.group(1), m.group(2)
         sb = base_type(self_ty)
@@ -1217,29 +1231,46 @@ class Exec:
                 hdr = self.impl_header(mm.group(1), int(mm.group(2)))
                 if hdr is None:
                     continue
-                h_trait, h_self = hdr
-                if base_type(h_self) != sb:
+                h_trait, h_self, gens = hdr
+                subst = {}
+                def unify(h, c):
+                    h, c = h.strip(), c.strip()
+                    if h in gens:
+                        if h in subst and subst[h] != c:
+                            return False
+                        subst[h] = c
+                        return True
+                    al = self.enums.aliases if self.enums is not None else {}
+                    if al.get(base_type(h), base_type(h)) != al.get(base_type(c), base_type(c)):
+                        return False
+                    ha, ca = type_args(h), type_args(c)
+                    if ha and ca and len(ha) == len(ca):
+                        return all(unify(x, y) for x, y in zip(ha, ca))
+                    return True
+                if not unify(h_self, self_ty):
                     continue
                 if trait is None and h_trait is not None:
                     continue
-                if trait is not None and (h_trait is None or base_type(h_trait) != base_type(trait)):
+                if trait is not None and (h_trait is None or not unify(h_trait, trait)):
                     continue
-                if trait is not None and type_args(trait) and type_args(h_trait):
-                    if [base_type(x) for x in type_args(trait)] != [base_type(x) for x in type_args(h_trait)]:
-                        continue
-                out += prog.funcs_named(name)
+                out += [(f, dict(subst) or None) for f in prog.funcs_named(name)]
                 continue
             mm = re.search(r'<impl ([^>]+(?:<[^>]*>)?)>::' + re.escape(meth) + r'$', name)
             if mm and trait is None and base_type(mm.group(1)) == sb:
-                out += prog.funcs_named(name)
-        out = [f for f in out if f.blocks]
+                out += [(f, None) for f in prog.funcs_named(name)]
+        out = [fs for fs in out if fs[0].blocks]
         if len(out) > 1 and args is not None:
-            out2 = [f for f in out if len(f.args) == len(args)]
+            out2 = [fs for fs in out if len(fs[0].args) == len(args)]
             out = out2 or out
+        if len(out) > 1:
+            # prefer the impl without generic wildcards (a concrete impl beats a blanket one)
+            conc = [fs for fs in out if not fs[1]]
+            if len(conc) == 1:
+                out = conc
         if len(out) == 1:
             return out[0]
         if len(out) > 1:
-            raise NotEncoded(f'ambiguous callee {callee}: {[f.name for f in out][:4]}')
+            raise NotEncoded(f'ambiguous callee {callee}: {[f.name for f, _ in out][:4]}')
         return None
 
     def impl_header(self, file, line):
@@ -1254,6 +1285,7 @@ class Exec:
             m = re.match(r'^(?:unsafe )?impl\b', txt)
             if m:
                 rest = txt[m.end():].lstrip()
+                gens = []
                 if rest.startswith('<'):
                     d = 0
                     for i, ch in enumerate(rest):
@@ -1263,11 +1295,17 @@ class Exec:
                             d -= 1
                             if d == 0:
                                 break
+                    for g in split_top(rest[1:i]):
+                        g = g.strip()
+                        if g.startswith("'"):
+                            continue
+                        g = re.sub(r'^const\s+', '', g)
+                        gens.append(re.split(r'[:\s=]', g, 1)[0])
                     rest = rest[i + 1:].lstrip()
                 rest = rest.split('{', 1)[0]
                 rest = re.split(r'\bwhere\b', rest)[0].strip()
                 parts = re.split(r'\s+for\s+', rest, 1)
-                r = (parts[0].strip(), parts[1].strip()) if len(parts) == 2 else (None, parts[0].strip())
+                r = (parts[0].strip(), parts[1].strip(), gens) if len(parts) == 2 else (None, parts[0].strip(), gens)
         except OSError:
             r = None
         self.memo[key] = r
